@@ -161,6 +161,9 @@ def stream_traces(res, binary, hooked, tier, seed, prop, mode, streams, syms):
 def plan_C05(res, binary, hooked, tier, seed):
     stream_models(res, binary, hooked, tier, "C05")
     stream_traces(res, binary, hooked, tier, seed, "C05", "c05", tq(tier, 45, 1200), tq(tier, 60, 150))
+    # every case of EntryPoints.tla (option x header size class x marker x trailing bytes) through Stream in one write
+    # and bytewise, compared with the one-shot decoder on the same bytes
+    entry_points_layer(res, binary, tier, seed, "C05")
     return ("model: every shape x chunking of the bounded families; implementation: seeded (stream, mutation, chunking) runs, each compared with the one-shot decoder on the same bytes and validated event-by-event by TLC; "
             "distinct = distinct (bytes, cuts, option)"), TRUSTED_STREAM
 
